@@ -276,6 +276,12 @@ class Interp:
 
     def st_AugAssign(self, st):
         cur = self.eval(_load(st.target))
+        if type(cur).__name__ == "DictV" and isinstance(st.op, ast.BitOr):
+            # d |= other: in-place update (aliases see it); the name / attribute keeps denoting the same dict
+            other = self.eval(st.value)
+            upd = self.models.get_attr(cur, "update", st)
+            self.models.call(upd, [other], {}, st)
+            return
         if isinstance(cur, ListV) and cur.items is not None and isinstance(st.op, ast.Add):
             seq = self.models.iterate(self.eval(st.value), st)
             if seq is None:
@@ -779,6 +785,16 @@ class Interp:
         if not hasattr(fr, "yields"):
             self.unsupported(node, "yield outside generator")
         fr.yields.append(v)
+        return NONE
+
+    def ex_YieldFrom(self, node):
+        fr = self.frame
+        if not hasattr(fr, "yields"):
+            self.unsupported(node, "yield from outside generator")
+        seq = self.models.iterate(self.eval(node.value), node)
+        if seq is None:
+            self.unsupported(node, "yield from an opaque iterable")
+        fr.yields.extend(seq)
         return NONE
 
     def ex_Lambda(self, node):
